@@ -3,6 +3,8 @@
 -/
 import Proofs.C17_Base64
 import Proofs.C17_Images
+import Proofs.C17_XmlPlain
+import Proofs.C17_Example
 namespace Mammoth
 
 /-! ### base64 -/
@@ -227,5 +229,406 @@ private def c17_exInline : List XmlNode :=
 example : c17_inlineAlt c17_exInline = some S!"T" := by decide
 example : c17_inlineAlt [.elem S!"wp:docPr" [(S!"descr", S!" d "), (S!"title", S!"T")] []] = some S!" d " := by
   decide
+
+
+/-! ## From the XML to the `<img>` tags: reader, converter, rendering, composition
+
+  Specification of the reader half (Proofs/C17_XmlSpec.lean), by recursion on the XML tree, by element
+  *name*, independent of the reader's dispatch table, state and fuel: `c17_xmlImages env b n` lists the images
+  of `n` in READING ORDER — one for every `a:blip` (with `r:embed`, or else `r:link`) reached from a
+  `wp:inline` / `wp:anchor` along `a:graphic/a:graphicData/pic:pic/pic:blipFill/a:blip`, one for every
+  `v:imagedata` with an `r:id` — each as (source, content type by the lookup rules above, alt text);
+  containers as for the text (C01): text boxes (`w:pict`) go to the `extra` channel and follow their host
+  paragraph, content under `w:del` and non-fallback alternate content is left out, and a paragraph whose
+  mark is a tracked deletion hands its content to the next paragraph opened (explicit buffer `b`).
+  `c17_elemImages` reads the images off a document tree, in document order.
+
+  Tables: as for C01, the reader's `calculate_row_spans` removes the cells it takes for vertical-merge
+  continuations together with their content.  `C17_read_images_presweep` is the exact statement for all
+  inputs; the equalities are for XML without `w:vMerge` continuation cells (`c01_noVMerge`), and
+  `C17_read_images_sublist` says that in general images can only disappear (with such a cell), nothing is
+  added or reordered. -/
+
+/-- THE READER, one element, every environment / fuel / reader state.  Let `b = c17_pend env st.deleted` be the
+    buffer that stands for the XML nodes the reader holds back when it starts.  If neither those nodes nor
+    `n` contain a vertical-merge continuation cell, then whenever the reader succeeds the images of the
+    elements it returns and of its `extra` result are exactly those of `c17_xmlImages env b n` (source,
+    content type and alt text included), in order, and the buffer the specification ends with stands for
+    the nodes the reader holds back at the end. -/
+theorem C17_read_images_spec (env : REnv) (fuel : Nat) (st : RState) (n : XmlNode) (r : ReadResult)
+    (st' : RState) (h : readElem env fuel st n = .ok (r, st'))
+    (hvs : c01_noVMergeL st.deleted = true) (hv : c01_noVMerge n = true) :
+    c17_elemImagesL r.elements = (c17_xmlImages env (c17_pend env st.deleted) n).live.inline ∧
+    c17_elemImagesL r.extra = (c17_xmlImages env (c17_pend env st.deleted) n).live.extra ∧
+    c17_pend env st'.deleted = (c17_xmlImages env (c17_pend env st.deleted) n).buf := by
+  have p := c17_readElem_images env fuel st n r st' h
+  have hs := p.sim
+  rw [hvs, hv] at hs
+  exact ⟨c17_Pre_eq hs.1, c17_Pre_eq hs.2, p.buf⟩
+
+/-- THE READER, a story (`read_all` on the children of `w:body`, of a note, of a comment) read from the
+    initial state: the images of the returned elements are `c17_storyImages env ns`, in reading order; those
+    of the `extra` result (top-level text boxes, which `read_all` drops) are `c17_storyExtra env ns`. -/
+theorem C17_read_images_spec_readAll (env : REnv) (fuel : Nat) (ns : List XmlNode) (r : ReadResult)
+    (st' : RState) (h : readAll env fuel {} ns = .ok (r, st')) (hv : c01_noVMergeL ns = true) :
+    c17_elemImagesL r.elements = c17_storyImages env ns ∧
+    c17_elemImagesL r.extra = c17_storyExtra env ns ∧
+    c17_pend env st'.deleted = (c17_xmlImagesL env [] ns).buf := by
+  have p := c17_readAll_images env fuel {} ns r st' h
+  have hs := p.sim
+  have hb := p.buf
+  rw [show c17_pend env ({} : RState).deleted = [] from c17_pend_nil env] at hs hb
+  rw [hv] at hs
+  exact ⟨c17_Pre_eq hs.1, c17_Pre_eq hs.2, hb⟩
+
+/-- EVERY input, tables with merged cells included: the returned elements are the row-span sweep
+    (`c01_spansL`: `calculate_row_spans` applied to every table, inner tables first) of a list of elements
+    whose images are exactly the specified in-line images; the same for the extra result. -/
+theorem C17_read_images_presweep (env : REnv) (fuel : Nat) (st : RState) (n : XmlNode) (r : ReadResult)
+    (st' : RState) (h : readElem env fuel st n = .ok (r, st')) :
+    (∃ pe, c01_spansL pe = r.elements ∧
+      c17_elemImagesL pe = (c17_xmlImages env (c17_pend env st.deleted) n).live.inline) ∧
+    (∃ px, c01_spansL px = r.extra ∧
+      c17_elemImagesL px = (c17_xmlImages env (c17_pend env st.deleted) n).live.extra) ∧
+    c17_pend env st'.deleted = (c17_xmlImages env (c17_pend env st.deleted) n).buf := by
+  have p := c17_readElem_images env fuel st n r st' h
+  obtain ⟨⟨pe, e1, e2, _⟩, ⟨px, x1, x2, _⟩⟩ := p.sim
+  exact ⟨⟨pe, e1, e2⟩, ⟨px, x1, x2⟩, p.buf⟩
+
+/-- EVERY input: no image is added or reordered — the images of the returned elements are a subsequence
+    of the specified ones (what is missing sits in cells removed by `calculate_row_spans`). -/
+theorem C17_read_images_sublist (env : REnv) (fuel : Nat) (ns : List XmlNode) (r : ReadResult)
+    (st' : RState) (h : readAll env fuel {} ns = .ok (r, st')) :
+    (c17_elemImagesL r.elements).Sublist (c17_storyImages env ns) ∧
+    (c17_elemImagesL r.extra).Sublist (c17_storyExtra env ns) := by
+  have p := c17_readAll_images env fuel {} ns r st' h
+  have hs := p.sim
+  rw [show c17_pend env ({} : RState).deleted = [] from c17_pend_nil env] at hs
+  exact ⟨c17_Pre_sublist hs.1, c17_Pre_sublist hs.2⟩
+
+/-- the row-span sweep can only remove images, and removes none from a tree without continuation marks -/
+theorem C17_spans_images (es : List Elem) :
+    (c17_elemImagesL (c01_spansL es)).Sublist (c17_elemImagesL es) ∧
+    (c01_noVmL es = true → c17_elemImagesL (c01_spansL es) = c17_elemImagesL es) :=
+  ⟨c17_spansL_sublist es, fun h => c17_spansL_images es h⟩
+
+/-- without deleted paragraph marks nothing is ever deferred: the buffered specification is the plain
+    structural one (`c17_xmlImagesPlain`: no buffer at all) -/
+theorem C17_spec_agree (env : REnv) (ns : List XmlNode) (hn : c05_noDelL ns = true) :
+    c17_xmlImagesL env [] ns = ⟨c17_xmlImagesPlainL env ns, []⟩ :=
+  c17_xmlImagesL_noDel env ns hn
+
+/-- the pieces of the specification of one image are the model's: the relationship lookup is last-wins,
+    the part name is `uri_to_zip_entry_name("word", target)` (relative targets are taken from `word/`
+    WHATEVER the directory of the part that holds the relationship — see the example at the end), a
+    blank `descr` is one whose `strip()` is empty -/
+theorem C17_spec_pieces (rs : Rels) (id t s : Str) (cs : List XmlNode) :
+    c17_relTarget rs id = lookupLast id (rs.map fun r => (r.id, r.target)) ∧
+    uriToZipEntryName S!"word" t = c17_partName t ∧
+    (strip s).isEmpty = c17_isBlank s ∧
+    c17_inlineAlt cs = c17_altText (findChildOrNull S!"wp:docPr" cs).1 :=
+  ⟨c17_relTarget_eq rs id, c17_partName_eq t, c17_strip_isEmpty s, c17_inlineAlt_eq cs⟩
+
+/-! ### the converter, every document tree -/
+
+/-- THE CONVERTER, one element (any tree: paragraphs, runs, tables, hyperlinks, …), every configuration and
+    every image converter of the modelled family.  If `visit` succeeds:
+    (1) the image converter has been called exactly once for every image of the tree that is not below a
+        paragraph, run or table mapped to `!`, in document order (`c17_visImages`) — the calls are
+        appended to the log, nothing else is;
+    (2) if no style mapping mentions an element named `img`, the `img` elements of the produced forest are,
+        in document order, what the converter returns for these images (`c17_imgOf`: one `img` per image;
+        none for an image that cannot be opened, which gets a warning instead). -/
+theorem C17_visit_images (cfg : Cfg) (hdr : Bool) (e : Elem) (st st' : ConvState) (ns : List Node)
+    (h : (visit cfg hdr e).run st = .ok (ns, st')) :
+    st'.imageCalls = st.imageCalls ++ c17_visImages cfg e ∧
+    (c17_noImgMap cfg = true → c17_imgs ns = (c17_visImages cfg e).flatMap (c17_imgOf cfg)) := by
+  obtain ⟨h0, h1, _, _⟩ := c17_H_visit cfg hdr e st ns st' h
+  exact ⟨h0, h1⟩
+
+/-- the same for a sequence of elements: generalises `C17_images_in_order` from a flat list of images to
+    arbitrary trees -/
+theorem C17_visitAll_images (cfg : Cfg) (hdr : Bool) (es : List Elem) (st st' : ConvState) (ns : List Node)
+    (h : (visitAll cfg hdr es).run st = .ok (ns, st')) :
+    st'.imageCalls = st.imageCalls ++ c17_visImagesL cfg es ∧
+    (c17_noImgMap cfg = true → c17_imgs ns = (c17_visImagesL cfg es).flatMap (c17_imgOf cfg)) := by
+  obtain ⟨h0, h1, _, _⟩ := c17_H_visitAll cfg hdr es st ns st' h
+  exact ⟨h0, h1⟩
+
+/-- THE CONVERTER, whole documents.  The calls received by the image converter during
+    `convert_document_element_to_html` are, in order: the visible images of the body, then those of the
+    notes the body references (in reference order), then those of the comments referenced by the body and
+    the rendered notes (`c17_docImages`) — one call each; and (no `img` in the style map) the `img`
+    elements of the output forest are what the converter returned for them, in the same order. -/
+theorem C17_visit_images_document (cfg : Cfg) (d : Document) (r : ConvResult)
+    (h : convertDoc cfg d = .ok r) :
+    r.imageCalls = c17_docImages (c10_docCfg cfg d) d ∧
+    (c17_noImgMap cfg = true →
+      c17_imgs r.nodes = (c17_docImages (c10_docCfg cfg d) d).flatMap (c17_imgOf cfg)) :=
+  c17_convertDoc_images cfg d r h
+
+/-- without `!` mappings every image of the tree is visible -/
+theorem C17_visible_all (cfg : Cfg) (hm : c01_noIgnoreMap cfg = true) (es : List Elem) :
+    c17_visImagesL cfg es = c17_elemImagesL es :=
+  c17_visImagesL_noIgnore cfg hm es
+
+/-- what the converters of the family return for one image: the default converter an `img` whose `src` is
+    the data URI of the bytes `image.open()` yields (`c17_opened`) under the image's content type and
+    whose `alt` is the (non-empty) alt text; nothing when the image cannot be opened -/
+theorem C17_default_img (cfg : Cfg) (hc : cfg.imageConv = .dataUri) (i : ImageProps) :
+    (c17_imgOf cfg i).map (fun t => c17_srcAltOf t.attrs) = (c17_expected cfg i).toList :=
+  c17_imgOf_dataUri cfg hc i
+
+/-! ### rendering -/
+
+/-- SURVIVAL.  In a forest where every element named `img` is childless and no collapsible tag has `img`
+    among its names (`c17_imgGood`), `strip_empty` keeps every `img` (it is void) and `collapse` merges
+    nothing with or into one: the `img` tags of `collapse (strip_empty ns)` are those of `ns`, in order;
+    and the written HTML — accepted by the strict lexer of C02 when names are plain — contains exactly these
+    tags, all in the void form `<img … />`, with their attribute values intact. -/
+theorem C17_imgs_survive_render (ns : List Node) (hg : c17_imgGood ns = true) :
+    c17_imgs (collapse (stripEmpty ns)) = c17_imgs ns ∧
+    (c02_plainNames ns = true →
+      ∃ toks, c02_lexHtml (render ns) = some toks ∧
+        c17_tokImgs toks = (c17_imgs ns).map (·.attrs) ∧
+        c17_tokVoidImgs toks = (c17_imgs ns).map (·.attrs)) :=
+  ⟨(c17_imgs_render ns hg).1, fun hp => c17_written_imgs ns hp hg⟩
+
+/-- the forest the converter produces for ANY document is of that kind when no style mapping mentions `img`:
+    the `img`s made by the image converter are fresh (`html.element`, not collapsible) and childless -/
+theorem C17_converter_imgs_good (cfg : Cfg) (hm : c17_noImgMap cfg = true) (d : Document) (r : ConvResult)
+    (h : convertDoc cfg d = .ok r) : c17_imgGood r.nodes = true :=
+  c17_good_convertDoc cfg hm d r h
+
+/-! ### composition -/
+
+/-- FROM THE XML TO THE HTML TEXT, default converter.  Read a story `ns` (no vertical-merge continuation
+    cells) as the body of a document with any notes and comments, convert it with the default image
+    converter under a style map without `!`, without `img` and with plain names, and write it.  Then the
+    strict lexer accepts the HTML; every `img` start tag in it has the void form; and the (`src`, `alt`)
+    pairs of these tags are, in order, those prescribed (`c17_expected`) for the images of the XML in
+    reading order (`c17_storyImages`) followed by the images of the rendered notes and comments: `src` is the
+    data URI of exactly the bytes of the referenced part (`c17_opened`: the archive entry) under the
+    content type the package declares for it, `alt` the drawing's alt text.  The same list is the log
+    of converter calls. -/
+theorem C17_xml_to_imgs (env : REnv) (fuel : Nat) (ns : List XmlNode) (r : ReadResult) (st' : RState)
+    (h : readAll env fuel {} ns = .ok (r, st')) (hv : c01_noVMergeL ns = true)
+    (cfg : Cfg) (hconv : cfg.imageConv = .dataUri) (hig : c01_noIgnoreMap cfg = true)
+    (hi : c17_noImgMap cfg = true) (hp : c02_plainCfg cfg = true)
+    (notes : List Note) (comments : List Comment) (res : ConvResult)
+    (hr : convertDoc cfg { children := r.elements, notes := notes, comments := comments } = .ok res) :
+    ∃ toks, c02_lexHtml (render res.nodes) = some toks ∧
+      c17_tokImgs toks = c17_tokVoidImgs toks ∧
+      (c17_tokVoidImgs toks).map c17_srcAltOf =
+        (c17_storyImages env ns ++
+          (c10_docNotes { cfg with comments := comments } ⟨r.elements, notes, comments⟩).flatMap
+            (fun n => c17_elemImagesL n.body) ++
+          (c10_docComments { cfg with comments := comments } ⟨r.elements, notes, comments⟩).flatMap
+            (fun c => c17_elemImagesL c.body)).filterMap (c17_expected cfg) ∧
+      res.imageCalls =
+        c17_storyImages env ns ++
+          (c10_docNotes { cfg with comments := comments } ⟨r.elements, notes, comments⟩).flatMap
+            (fun n => c17_elemImagesL n.body) ++
+          (c10_docComments { cfg with comments := comments } ⟨r.elements, notes, comments⟩).flatMap
+            (fun c => c17_elemImagesL c.body) :=
+  c17_xml_to_imgs env fuel ns r st' h hv cfg hconv hig hi hp notes comments res hr
+
+/-- when every referenced part can be read (embedded parts exist in the archive — the decidable
+    `c17_allPresent`), every image yields exactly one `img`: the list of `C17_xml_to_imgs` has as many entries
+    as there are images (`filterMap` keeps the order) -/
+theorem C17_one_img_per_image (cfg : Cfg) (is : List ImageProps) (h : c17_allPresent cfg is = true) :
+    (is.filterMap (c17_expected cfg)).length = is.length :=
+  c17_expected_length cfg is h
+
+/-- THE PUBLIC API.  `mammoth.convert_to_html(package)` with the default image converter: `v` is what
+    `docx.read` takes from the package (`c05_view`: shared environment, the relationships of the main
+    document part, the children of its `w:body`, alternate content already collapsed).  The `<img … />` tags
+    of the returned HTML are, in order, those prescribed for the images of the body XML in reading order,
+    then of the rendered notes and comments; `out.imageCalls` is the same list of images. -/
+theorem C17_package_to_imgs (p : Package) (v : c05_View) (hview : c05_view p = some v)
+    (fuel : Nat) (base : Option Str) (world : Str → Option Bytes) (o : Options) (out : ApiOut)
+    (h : apiConvert p fuel base world id o = .ok out)
+    (hf : o.format = .html) (hc : o.imageConv = .dataUri) (hv : c01_noVMergeL v.body = true)
+    (hig : c01_noIgnoreMap (c05_apiCfg p base world o (c17_embOf p o)) = true)
+    (hi : c17_noImgMap (c05_apiCfg p base world o (c17_embOf p o)) = true)
+    (hp : c02_plainCfg (c05_apiCfg p base world o (c17_embOf p o)) = true) :
+    ∃ toks, c02_lexHtml out.value = some toks ∧
+      c17_tokImgs toks = c17_tokVoidImgs toks ∧
+      (c17_tokVoidImgs toks).map c17_srcAltOf =
+        (c17_storyImages { v.shared with rels := v.bodyRels } v.body ++
+          (c10_docNotes (c10_docCfg (c05_apiCfg p base world o (c17_embOf p o)) out.document) out.document).flatMap
+            (fun n => c17_elemImagesL n.body) ++
+          (c10_docComments (c10_docCfg (c05_apiCfg p base world o (c17_embOf p o)) out.document) out.document).flatMap
+            (fun c => c17_elemImagesL c.body)).filterMap
+          (c17_expected (c05_apiCfg p base world o (c17_embOf p o))) ∧
+      out.imageCalls =
+        c17_storyImages { v.shared with rels := v.bodyRels } v.body ++
+          (c10_docNotes (c10_docCfg (c05_apiCfg p base world o (c17_embOf p o)) out.document) out.document).flatMap
+            (fun n => c17_elemImagesL n.body) ++
+          (c10_docComments (c10_docCfg (c05_apiCfg p base world o (c17_embOf p o)) out.document) out.document).flatMap
+            (fun c => c17_elemImagesL c.body) :=
+  c17_package_to_imgs p v hview fuel base world o out h hf hc hv hig hi hp
+
+/-! ### non-vacuity: a package with three images (`Proofs/C17_Example.lean`)
+
+  inline (`descr`), a VML `v:imagedata` inside a text box placed BEFORE the inline image in the XML of the same
+  paragraph, an anchored drawing (blank `descr`, `title`) inside a table; content types by `Default`,
+  `Override` and the built-in table (upper-case extension, absolute target). -/
+
+/-- the specification: reading order is inline, text box, table; sources, types and alt texts -/
+example : c17_storyImages c17_exEnv c17_exBody = c17_exImages ∧ c17_storyExtra c17_exEnv c17_exBody = [] := by
+  decide +kernel
+/-- the hypotheses of `C17_read_images_spec_readAll` and `C17_xml_to_imgs` hold for it: no continuation
+    cell, the reader succeeds, a style map without `!` / `img` and with plain names, the default converter,
+    every part present, the conversion succeeds -/
+example : c01_noVMergeL c17_exBody = true ∧ c05_noDelL c17_exBody = true ∧
+    c17_okAnd (readAll c17_exEnv 12 {} c17_exBody) (fun p =>
+      decide (c17_elemImagesL p.1.elements = c17_exImages) &&
+      c05_docOk { archive := archiveBytes c17_exPackage } { children := p.1.elements }) = true := by
+  decide +kernel
+example : c01_noIgnoreMap (c05_apiCfg c17_exPackage none (fun _ => none) c17_exOptions (c17_embOf c17_exPackage c17_exOptions)) = true ∧
+    c17_noImgMap (c05_apiCfg c17_exPackage none (fun _ => none) c17_exOptions (c17_embOf c17_exPackage c17_exOptions)) = true ∧
+    c02_plainCfg (c05_apiCfg c17_exPackage none (fun _ => none) c17_exOptions (c17_embOf c17_exPackage c17_exOptions)) = true ∧
+    c17_allPresent (c05_apiCfg c17_exPackage none (fun _ => none) c17_exOptions (c17_embOf c17_exPackage c17_exOptions))
+      c17_exImages = true := by
+  decide +kernel
+/-- the package is read (`c05_view`), its body has no continuation cell, its environment is `c17_exEnv` -/
+example : (match c05_view c17_exPackage with
+    | some v => c01_noVMergeL v.body && decide (v.bodyRels.map (·.target) = c17_exEnv.rels.map (·.target)) &&
+        decide (v.shared.contentTypes.defaults = c17_exEnv.contentTypes.defaults) &&
+        decide (v.shared.contentTypes.overrides = c17_exEnv.contentTypes.overrides)
+    | none => false) = true := by decide +kernel
+/-- and the whole API on it: three `<img … />`, in reading order, each with the data URI of exactly its
+    part's bytes under the declared type and its alt text (the real library returns the same HTML) -/
+example : c17_okAnd (apiConvert c17_exPackage 30 none (fun _ => none) id c17_exOptions) (fun out =>
+    decide ((c02_lexHtml out.value).map (fun toks => (c17_tokVoidImgs toks).map c17_srcAltOf) =
+      some [(some (S!"data:image/png;base64," ++ b64encode c17_exPng), some S!"first"),
+            (some (S!"data:image/gif;base64," ++ b64encode c17_exGif), some S!"third"),
+            (some (S!"data:image/jpeg;base64," ++ b64encode c17_exJpg), some S!"second")]) &&
+    decide (out.imageCalls = c17_exImages)) = true := by decide +kernel
+example : c17_exImages.filterMap (c17_expected { archive := archiveBytes c17_exPackage }) =
+    [(some S!"data:image/png;base64,iVBORw==", some S!"first"),
+     (some S!"data:image/gif;base64,R0lG", some S!"third"),
+     (some S!"data:image/jpeg;base64,/9j/", some S!"second")] := by decide +kernel
+
+/-- all hypotheses of `C17_xml_to_imgs` at once, for one configuration (the archive of the package, a small
+    style map), the body of the package and no notes or comments -/
+private def c17_exCfgX : Cfg :=
+  { archive := archiveBytes c17_exPackage,
+    styleMap := [⟨.paragraph (some S!"Heading1") none none, .elements [pathElem S!"h1" true]⟩] }
+example : c17_exCfgX.imageConv = .dataUri := rfl
+example : c01_noIgnoreMap c17_exCfgX = true ∧ c17_noImgMap c17_exCfgX = true ∧
+    c02_plainCfg c17_exCfgX = true ∧ c01_noVMergeL c17_exBody = true ∧
+    c17_okAnd (readAll c17_exEnv 12 {} c17_exBody) (fun p =>
+      (convertDoc c17_exCfgX { children := p.1.elements, notes := [], comments := [] }).toBool) = true := by
+  decide +kernel
+
+/-- `C17_read_images_spec` from a non-initial state: a paragraph read while a run with an image is held
+    back (by an earlier deleted paragraph mark) takes that image over, in front of its own -/
+example : c01_noVMergeL [c17_exInlineImg] = true ∧ c01_noVMerge (c17_x S!"w:p" [c17_exAnchorImg]) = true ∧
+    c17_okAnd (readElem c17_exEnv 10 { deleted := [c17_exInlineImg] } (c17_x S!"w:p" [c17_exAnchorImg]))
+      (fun p => decide ((c17_elemImagesL p.1.elements).map (·.altText) = [some S!"first", some S!"second"]) &&
+        decide (c17_pend c17_exEnv p.2.deleted = [])) = true ∧
+    ((c17_xmlImages c17_exEnv (c17_pend c17_exEnv [c17_exInlineImg]) (c17_x S!"w:p" [c17_exAnchorImg])).live.inline).map
+      (·.altText) = [some S!"first", some S!"second"] := by
+  decide +kernel
+
+/-- `C17_visit_images` / `C17_visit_images_document` on a document with an image in a table cell inside a
+    hyperlink, one in a referenced footnote and one in a referenced comment; a custom converter that opens
+    the image: three calls, in the order body, note, comment; three `img` elements with the converter's
+    attributes -/
+private def c17_exImgB : ImageProps := { c17_exImg with altText := some S!"note" }
+private def c17_exImgC : ImageProps := { c17_exImg with altText := none }
+private def c17_exDoc : Document :=
+  { children := [.table none none [.row false [.cell 1 1 false [.paragraph {} [
+        .hyperlink { href := some S!"http://x" } [.run {} [.image c17_exImg]],
+        .run {} [.noteRef S!"footnote" S!"1", .commentRef S!"c1"]]]]]],
+    notes := [⟨S!"footnote", S!"1", [.paragraph {} [.run {} [.image c17_exImgB]]]⟩],
+    comments := [{ id := S!"c1", body := [.paragraph {} [.image c17_exImgC]] }] }
+private def c17_exCfg2 : Cfg :=
+  { archive := [(S!"word/media/a.png", [77, 97, 110])], imageConv := .fixed [(S!"src", S!"u")] true,
+    styleMap := [⟨.commentReference, .elements [pathElem S!"sup" false]⟩] }
+example : c17_noImgMap c17_exCfg2 = true ∧
+    c17_docImages (c10_docCfg c17_exCfg2 c17_exDoc) c17_exDoc = [c17_exImg, c17_exImgB, c17_exImgC] ∧
+    c17_okAnd (convertDoc c17_exCfg2 c17_exDoc) (fun r =>
+      decide (r.imageCalls = [c17_exImg, c17_exImgB, c17_exImgC]) &&
+      decide ((c17_imgs r.nodes).map (fun t => (Dict.get? S!"alt" t.attrs, Dict.get? S!"data-len" t.attrs)) =
+        [(some S!"cat", some S!"3"), (some S!"note", some S!"3"), (none, some S!"3")])) = true := by
+  decide +kernel
+
+/-- `C17_imgs_survive_render`: two equal adjacent `img`s of the image converter stay two (they are fresh);
+    the hypothesis is needed: two equal COLLAPSIBLE elements named `img` (not what the converter makes)
+    merge into one -/
+example : c17_imgGood [el S!"p" [] [el S!"img" [(S!"src", S!"u")] [], el S!"img" [(S!"src", S!"u")] []]] = true ∧
+    (c17_imgs (collapse (stripEmpty [el S!"p" [] [el S!"img" [(S!"src", S!"u")] [], el S!"img" [(S!"src", S!"u")] []]]))).length = 2 ∧
+    c17_imgGood [cel S!"img" [] [], cel S!"img" [] []] = false ∧
+    (c17_imgs (collapse (stripEmpty [cel S!"img" [] [], cel S!"img" [] []]))).length = 1 := by
+  decide +kernel
+
+/-! ### the hypotheses are needed; what the specification says in corner cases -/
+
+/-- `c17_noImgMap` is needed for the statement about `img` ELEMENTS (not for the calls): with `p => img` a
+    paragraph becomes an `img` element that is no image -/
+example : c17_noImgMap { styleMap := [⟨.paragraph none none none, .elements [pathElem S!"img" false]⟩] } = false ∧
+    c17_okAnd ((visit { styleMap := [⟨.paragraph none none none, .elements [pathElem S!"img" false]⟩] } false
+        (.paragraph {} [.text S!"x"])).run {})
+      (fun p => decide ((c17_imgs p.1).length = 1) && decide (p.2.imageCalls = [])) = true := by decide +kernel
+
+/-- an image below a run mapped to `!` is not visited: no call, no `img` -/
+example : c17_visImages { styleMap := [⟨.run none (some (.equalTo S!"Hidden")), .ignore⟩] }
+    (.paragraph {} [.run { styleName := some S!"Hidden" } [.image c17_exImg], .run {} [.image c17_exImg]])
+    = [c17_exImg] := by decide +kernel
+
+/-- a vertical-merge continuation cell with an image: the specification lists it, the reader's row-span
+    sweep removes it with the cell (the sublist statement is strict; the real library drops it too);
+    a deleted paragraph mark defers its image into the next paragraph opened — inside the table cell;
+    an image under `w:del` is no image; of two blips the one with `r:embed` is embedded even if it also
+    has `r:link`; a blip with neither gives nothing -/
+private def c17_exInl (descr : Str) (g : List XmlNode) : XmlNode :=
+  c17_x S!"w:r" [c17_x S!"w:drawing" [c17_x S!"wp:inline" (.elem S!"wp:docPr" [(S!"descr", descr)] [] :: g)]]
+private def c17_exBlip (as : Attrs) : XmlNode := c17_x S!"pic:blipFill" [.elem S!"a:blip" as []]
+private def c17_exBody2 : List XmlNode :=
+  [ c17_x S!"w:p" [c17_exInl S!"two" [c17_x S!"a:graphic" [c17_x S!"a:graphicData" [
+      c17_x S!"pic:pic" [c17_exBlip [(S!"r:embed", S!"rId1"), (S!"r:link", S!"rId2")], c17_exBlip [(S!"r:embed", S!"rId2")]],
+      c17_x S!"pic:pic" [c17_exBlip []]]]]],
+    c17_x S!"w:p" [c17_x S!"w:pPr" [c17_x S!"w:rPr" [c17_x S!"w:del" []]], c17_exInl S!"deferred" [c17_exGraphic S!"rId1"]],
+    c17_x S!"w:tbl" [
+      c17_x S!"w:tr" [c17_x S!"w:tc" [c17_x S!"w:tcPr" [.elem S!"w:vMerge" [(S!"w:val", S!"restart")] []],
+        c17_x S!"w:p" [c17_exInl S!"top" [c17_exGraphic S!"rId1"]]]],
+      c17_x S!"w:tr" [c17_x S!"w:tc" [c17_x S!"w:tcPr" [c17_x S!"w:vMerge" []],
+        c17_x S!"w:p" [c17_exInl S!"cont" [c17_exGraphic S!"rId2"]]]]],
+    c17_x S!"w:p" [c17_x S!"w:del" [c17_exInl S!"deleted" [c17_exGraphic S!"rId1"]]] ]
+private def c17_exEnv2 : REnv :=
+  { rels := [⟨S!"rId1", S!"media/a.png", []⟩, ⟨S!"rId2", S!"media/b.gif", []⟩] }
+example : c01_noVMergeL c17_exBody2 = false ∧
+    (c17_storyImages c17_exEnv2 c17_exBody2).map (fun i => (i.altText, i.contentType, i.src)) =
+      [(some S!"two", some S!"image/png", .embedded S!"word/media/a.png"),
+       (some S!"two", some S!"image/gif", .embedded S!"word/media/b.gif"),
+       (some S!"deferred", some S!"image/png", .embedded S!"word/media/a.png"),
+       (some S!"top", some S!"image/png", .embedded S!"word/media/a.png"),
+       (some S!"cont", some S!"image/gif", .embedded S!"word/media/b.gif")] ∧
+    c17_okAnd (readAll c17_exEnv2 12 {} c17_exBody2) (fun p =>
+      decide ((c17_elemImagesL p.1.elements).map (·.altText) =
+        [some S!"two", some S!"two", some S!"deferred", some S!"top"])) = true := by
+  decide +kernel
+
+/-- MODEL = CODE, AGAINST THE PROPERTY'S WORDING ("the referenced package part"): a relative image target is
+    always resolved against `word/`, not against the directory of the part that holds the relationship.
+    With the main document at `docs/document.xml` and an image relationship `media/image1.png`, the part read
+    is `word/media/image1.png` (here an unrelated part with other bytes; a KeyError if it does not exist),
+    not `docs/media/image1.png`.  The real library does the same (reproduced). -/
+private def c17_exMisplaced : Package :=
+  { parts := [
+      (S!"_rels/.rels", .xml (c17_x S!"relationships:Relationships" [
+        c17_exRel S!"rId1" S!"officeDocument" S!"docs/document.xml"])),
+      (S!"docs/_rels/document.xml.rels", .xml (c17_x S!"relationships:Relationships" [
+        c17_exRel S!"rId1" S!"image" S!"media/image1.png"])),
+      (S!"docs/document.xml", .xml (c17_x S!"w:document" [c17_x S!"w:body" [c17_x S!"w:p" [c17_exInlineImg]]])),
+      (S!"docs/media/image1.png", .bytes [1, 2, 3]),
+      (S!"word/media/image1.png", .bytes [9, 9, 9]) ] }
+example : c17_okAnd (apiConvert c17_exMisplaced 30 none (fun _ => none) id c17_exOptions) (fun out =>
+    decide ((c02_lexHtml out.value).map (fun toks => (c17_tokVoidImgs toks).map c17_srcAltOf) =
+      some [(some (S!"data:image/png;base64," ++ b64encode [9, 9, 9]), some S!"first")])) = true := by
+  decide +kernel
 
 end Mammoth
